@@ -870,6 +870,8 @@ class DynDiGraph(nx.DiGraph):
                         return 1
                     else:
                         return 0
+                else:
+                    return 0
 
     def has_interaction(self, u, v, t=None):
         """Return True if the interaction (u,v) is in the graph at time t.
